@@ -102,6 +102,119 @@ def continueClose (w : World τ) (a : ActId) (fs : List (Frame τ)) (s : ScopeId
       | .reraise, none => w.retTo a fs .unit
       | .raiseOther x, _ => w.raiseTo a fs x
 
+
+/-! ### locks, streams, tracked values, resources, pipes: synchronous parts -/
+
+/-- `Queue._await_message` once the read mutex is held (streams.py:155-167) -/
+def queueGetEnter (w : World τ) (a : ActId) (fs : List (Frame τ)) (q : Name) : World τ :=
+  let qu := w.queues.getD q default
+  if !qu.buffer.isEmpty then w.doPostpone a (.qGetPop q :: fs)
+  else if qu.closed then w.raiseNew a fs .streamClosed
+  else w.doNotifAwait a (.qGetPop q :: fs) qu.notif
+
+/-- continue after the lock is owned by `a` (`self._depth += 1`, locks.py:72) -/
+def lockAcquired (w : World τ) (a : ActId) (fs : List (Frame τ)) (l : Name) (cont : LockCont τ) : World τ :=
+  let w := { w with locks := w.locks.modify l (fun x => { x with depth := x.depth + 1 }) }
+  match cont with
+  | .body stmts => w.retTo a (.seq stmts :: .lockBody l :: fs) .unit
+  | .queueGet q => w.queueGetEnter a (.lockBody l :: fs) q
+
+/-- `Lock.__aenter__` (locks.py:58-73) -/
+def acquireLock (w : World τ) (a : ActId) (fs : List (Frame τ)) (l : Name) (cont : LockCont τ) : World τ :=
+  let lk := w.locks.getD l default
+  match lk.owner with
+  | none =>
+    let w := { w with locks := w.locks.modify l (fun x => { x with owner := some a }) }
+    w.lockAcquired a fs l cont
+  | some o =>
+    if o == a then w.lockAcquired a fs l cont
+    else w.doNotifAwait a (.lockWait l cont :: fs) lk.notif
+
+def vecAdd (a b : List Int) : List Int := (a.zip b).map (fun p => p.1 + p.2)
+def vecSub (a b : List Int) : List Int := (a.zip b).map (fun p => p.1 - p.2)
+
+/-- `Tracked.set` on a resource's level (tracked.py): store, notify listeners whose test holds -/
+def setLevels (w : World τ) (r : Name) (levels : List Int) : World τ :=
+  let w := { w with res := w.res.modify r (fun x => { x with levels := levels }) }
+  (w.res.getD r default).listeners.foldl (fun w c => if w.eval c then w.awakeAll c else w) w
+
+/-- `Tracked.set` on a plain tracked value -/
+def setTrackedValue (w : World τ) (x : Name) (v : Int) : World τ :=
+  let w := { w with tracked := w.tracked.modify x (fun t => { t with value := v }) }
+  (w.tracked.getD x default).listeners.foldl (fun w c => if w.eval c then w.awakeAll c else w) w
+
+/-- `Pipe._throttle_subscribers` (pipe.py) -/
+def throttle (w : World τ) (p : Name) : World τ :=
+  let pp := w.pipes.getD p default
+  let desired := pp.subs.foldl (fun acc s => add acc s.2) (zero : τ)
+  match pp.throughput with
+  | none =>
+    -- infinite throughput: `desired > inf` is false; scale stays / returns to 1
+    if !pp.scaleIsOne then
+      ({ w with pipes := w.pipes.modify p (fun x => { x with scale := ofInt 1, scaleIsOne := true }) }).awakeAll pp.congested
+    else w
+  | some thr =>
+    if gt desired thr then
+      let sc := div thr desired
+      ({ w with pipes := w.pipes.modify p (fun x => { x with scale := sc, scaleIsOne := beq sc (ofInt 1) }) }).awakeAll pp.congested
+    else if !pp.scaleIsOne then
+      ({ w with pipes := w.pipes.modify p (fun x => { x with scale := ofInt 1, scaleIsOne := true }) }).awakeAll pp.congested
+    else w
+
+/-- start one window of `Pipe.transfer` (pipe.py: body of the `while transferred < total` loop) -/
+def pipeWindowStart (w : World τ) (a : ActId) (fs : List (Frame τ)) (p : Name) (ident : Nat)
+    (total thr transferred : τ) : World τ :=
+  let pp := w.pipes.getD p default
+  let wThr := mul thr pp.scale
+  let (w, cw) := w.newSig .wake
+  -- `with self._congested.__subscription__()`: plain notification
+  let w := w.setCond pp.congested (fun x => { x with waiting := x.waiting ++ [(a, cw)] })
+  let delay := div (sub total transferred) wThr
+  let fr : Frame τ := .pipeWindow p ident total thr transferred w.time wThr cw
+  if gt delay (zero : τ) then w.doSuspend a (fr :: fs) (.delay delay) else w.doPostpone a (fr :: fs)
+
+def pipeFinish (w : World τ) (p : Name) (ident : Nat) : World τ :=
+  let w := { w with pipes := w.pipes.modify p (fun x => { x with subs := x.subs.filter (·.1 != ident) }) }
+  w.throttle p
+
+/-- next step of `interval()` / `delay()` (timing.py:493-540) -/
+def tickNext (w : World τ) (a : ActId) (fs : List (Frame τ)) (isInterval : Bool) (period last : τ)
+    (remaining : Nat) (body : List (Stmt τ)) : World τ :=
+  if remaining == 0 then w.retTo a fs .unit
+  else
+    let fr : Frame τ := .tickWait isInterval period last remaining body
+    if isInterval then
+      let rem := sub (add last period) w.time
+      if lt rem (zero : τ) then w.raiseNew a fs .intervalExceeded
+      else if gt rem (zero : τ) then w.doSuspend a (fr :: fs) (.delay rem)
+      else w.doPostpone a (fr :: fs)
+    else
+      if gt period (zero : τ) then w.doSuspend a (fr :: fs) (.delay period) else w.doPostpone a (fr :: fs)
+
+/-- `resources.borrow(..)` / `.claim(..)` and `BorrowedResources.__aenter__` (resource.py) -/
+def borrowEnter (w : World τ) (a : ActId) (fs : List (Frame τ)) (r : Name) (amounts : List Int) (bind : Name)
+    (body : List (Stmt τ)) (isClaim : Bool) : World τ :=
+  match lookup w.resNames r with
+  | none => (w.emit a "unbound" []).retTo a fs .unit
+  | some rid =>
+    let rs := w.res.getD rid default
+    -- `borrow()`: amounts must be >= 0; from a borrowed share: not beyond that share
+    let beyond := rs.parent.isSome && !((rs.debits.zip amounts).all (fun p => p.1 ≥ p.2))
+    if w.cfg.debug && (amounts.any (· < 0) || beyond) then w.raiseNew a fs (.assertion 4)
+    else
+      let b := w.res.size
+      let w := { w with res := w.res.push { levels := amounts.map (fun _ => 0), parent := some rid, debits := amounts },
+                        resNames := (bind, b) :: w.resNames.filter (·.1 != bind) }
+      let avail := vecCmp 4 rs.levels amounts
+      if isClaim && !avail then w.raiseNew a fs .resUnavailable
+      else if !avail then
+        -- `await (self._resources._available >= self._debits)`: a new comparison object
+        let (w, c) := w.newCond (.resCmp rid 4 amounts)
+        let w := { w with res := w.res.modify rid (fun t => { t with listeners := t.listeners ++ [c] }) }
+        w.doCondAwait a (.borrowWait rid b body :: fs) c
+      else
+        (w.setLevels rid (vecSub rs.levels amounts)).doPostpone a (.borrowRemoved rid b body :: fs)
+
 def truthy (x : Option τ) : Bool :=
   match x with
   | some v => !(beq v (zero : τ))
@@ -208,7 +321,7 @@ def execStmt (w : World τ) (a : ActId) (fs : List (Frame τ)) : Stmt τ → Wor
   | .awaitTask task =>
     match lookup w.taskNames task with
     | none => (w.emit a "unbound" []).retTo a fs .unit
-    | some t => w.doCondAwait a (.taskResult t :: fs) (w.task t).done
+    | some t => w.doCondAwait a (.taskResult t false :: fs) (w.task t).done
   | .awaitScope scope =>
     match lookup w.scopeNames scope with
     | none => (w.emit a "unbound" []).retTo a fs .unit
@@ -225,24 +338,113 @@ def execStmt (w : World τ) (a : ActId) (fs : List (Frame τ)) : Stmt τ → Wor
     match fs with
     | _ :: below => w.retTo a (.retVal v :: below) .unit
     | [] => w.retTo a fs (.int v)
-  | .withLock l body =>                                                -- locks.py Lock.__aenter__
-    let lk := w.locks.getD l default
-    match lk.owner with
-    | none =>
-      let w := { w with locks := w.locks.modify l (fun x => { x with owner := some a, depth := x.depth + 1 }) }
-      w.retTo a (.seq body :: .lockBody l :: fs) .unit
-    | some o =>
-      if o == a then
-        let w := { w with locks := w.locks.modify l (fun x => { x with depth := x.depth + 1 }) }
-        w.retTo a (.seq body :: .lockBody l :: fs) .unit
-      else w.doNotifAwait a (.lockWait l body :: fs) lk.notif
+  | .withLock l body => w.acquireLock a fs l (.body body)
   | .logAvail l =>
     let lk := w.locks.getD l default
     let av := match lk.owner with
       | none => true
       | some o => o == a
     (w.emit a "avail" [if av then 1 else 0]).retTo a fs .unit
-  | _ => (w.emit a "unsupported" []).retTo a fs .unit
+  | .qPut q v =>                                                       -- streams.py Queue.put
+    let qu := w.queues.getD q default
+    if qu.closed then w.raiseNew a fs .streamClosed
+    else
+      let w := { w with queues := w.queues.modify q (fun x => { x with buffer := x.buffer ++ [v] }) }
+      let (w, _) := w.awakeNext qu.notif
+      w.doPostpone a fs
+  | .qGet q => w.acquireLock a (.gotValue :: fs) (w.queues.getD q default).mutex (.queueGet q)
+  | .qClose q =>
+    let qu := w.queues.getD q default
+    let w := if !qu.closed then
+        ({ w with queues := w.queues.modify q (fun x => { x with closed := true }) }).awakeAll qu.notif
+      else w
+    w.doPostpone a fs
+  | .qIter q n body => w.retTo a (.qIterNext q n body :: fs) .unit
+  | .cPut c v =>                                                       -- streams.py Channel.put
+    let ch := w.chans.getD c default
+    if ch.closed then w.raiseNew a fs .streamClosed
+    else
+      let w := { w with chans := w.chans.modify c (fun x => { x with buffers := x.buffers.map (fun (b : Nat × List Int) => (b.1, b.2 ++ [v])) }) }
+      (w.awakeAll ch.notif).doPostpone a fs
+  | .cGet c =>                                                         -- streams.py Channel.__await__
+    let ch := w.chans.getD c default
+    if ch.closed then w.raiseNew a fs .streamClosed
+    else
+      let key := ch.nextKey
+      let w := { w with chans := w.chans.modify c (fun x => { x with buffers := x.buffers ++ [(key, [])], nextKey := key + 1 }) }
+      w.doNotifAwait a (.cGetWait c key :: .gotValue :: fs) ch.notif
+  | .cClose c =>
+    let ch := w.chans.getD c default
+    let w := if !ch.closed then
+        ({ w with chans := w.chans.modify c (fun x => { x with closed := true }) }).awakeAll ch.notif
+      else w
+    w.doPostpone a fs
+  | .cIter c n body =>
+    let ch := w.chans.getD c default
+    let key := ch.nextKey
+    let w := { w with chans := w.chans.modify c (fun x => { x with buffers := x.buffers ++ [(key, [])], nextKey := key + 1 }) }
+    w.retTo a (.cIterLoop c key n body :: fs) .unit
+  | .setTracked x v => (w.setTrackedValue x v).doPostpone a fs
+  | .addTracked x v => (w.setTrackedValue x ((w.tracked.getD x default).value + v)).doPostpone a fs
+  | .borrow r amounts bind body => w.borrowEnter a fs r amounts bind body false
+  | .claim r amounts bind body => w.borrowEnter a fs r amounts bind body true
+  | .resChange r kind amounts =>                                       -- resource.py Resources.set/increase/decrease
+    match lookup w.resNames r with
+    | none => (w.emit a "unbound" []).retTo a fs .unit
+    | some rid =>
+      let levels := (w.res.getD rid default).levels
+      if w.cfg.debug && amounts.any (fun x => x < 0 && !(kind == 2 && x == -1)) then w.raiseNew a fs (.assertion 4)
+      else match kind with
+        | 0 => (w.setLevels rid (vecAdd levels amounts)).doPostpone a fs
+        | 1 =>
+          if w.cfg.debug && (vecSub levels amounts).any (· < 0) then w.raiseNew a fs (.assertion 4)
+          else (w.setLevels rid (vecSub levels amounts)).doPostpone a fs
+        | _ => (w.setLevels rid ((levels.zip amounts).map (fun p => if p.2 == -1 then p.1 else p.2))).doPostpone a fs
+  | .logLevels r =>
+    match lookup w.resNames r with
+    | none => (w.emit a "unbound" []).retTo a fs .unit
+    | some rid => (w.emit a "levels" (w.res.getD rid default).levels).retTo a fs .unit
+  | .transfer p total throughput =>                                    -- pipe.py Pipe.transfer / UnboundedPipe.transfer
+    let pp := w.pipes.getD p default
+    if w.cfg.debug && (lt total (zero : τ) || (match throughput with | some t => !(gt t (zero : τ)) | none => false)) then
+      w.raiseNew a fs (.assertion 5)
+    else match pp.throughput with
+      | none =>
+        match throughput with
+        | none => w.doPostpone a fs
+        | some t =>
+          let delay := div total t
+          if gt delay (zero : τ) then w.doSuspend a fs (.delay delay) else w.doPostpone a fs
+      | some pthr =>
+        if beq total (zero : τ) then w.doPostpone a fs
+        else
+          let thr := throughput.getD pthr
+          let ident := pp.nextId
+          let w := { w with pipes := w.pipes.modify p (fun x => { x with subs := x.subs ++ [(ident, thr)], nextId := ident + 1 }) }
+          let w := w.throttle p
+          if lt (zero : τ) total then w.pipeWindowStart a fs p ident total thr (zero : τ)
+          else (w.pipeFinish p ident).retTo a fs .unit
+  | .interval period n body =>
+    if lt period (zero : τ) then w.raiseNew a fs .valueError
+    else w.tickNext a fs true period w.time n body
+  | .delayIter period n body =>
+    if lt period (zero : τ) then w.raiseNew a fs .valueError
+    else w.tickNext a fs false period w.time n body
+  | .collect progs =>                                                  -- _concurrent/basics.py collect
+    let base := w.freshName
+    let names := (List.range progs.length).map (· + base + 1)
+    let spawns := (progs.zip names).map (fun p => Stmt.spawn base p.2 p.1 none none false)
+    let w := { w with freshName := base + progs.length + 1 }
+    w.retTo a (.seq [.scope base none spawns] :: .collectAwait names [] :: fs) .unit
+  | .nestedRun progs start =>                                          -- usim.run(...) inside an activity
+    let sv : Saved τ := { time := w.time, turn := w.turn, pending := w.pending, queue := w.queue, ctl := w.ctl }
+    let w := w.setFrames a (.nestedRun :: fs)
+    let (w, acts) := progs.foldl (fun (p : World τ × List Activation) prog =>
+      let (w, x) := p.1.newAct [.seq prog, .coroutineEnd] true (10000 + 100 * p.1.nestedRuns + p.2.length)
+      (w, p.2 ++ [{ target := x, signal := none }])) (w, [])
+    { w with saved := sv :: w.saved, time := start, turn := 0, pending := [], queue := [(start, acts)], ctl := [],
+             nestedRuns := w.nestedRuns + 1 }
+  | .first _ _ _ => (w.emit a "unsupported" []).retTo a fs .unit
 
 /-- deliver a normal return value `v` to the top frame `f` of activity `a` (`fs` = frames below) -/
 def stepRet (w : World τ) (a : ActId) (f : Frame τ) (fs : List (Frame τ)) (v : Val) : World τ :=
@@ -280,9 +482,9 @@ def stepRet (w : World τ) (a : ActId) (f : Frame τ) (fs : List (Frame τ)) (v 
     let w := subs.reverse.foldl (fun w (p : CondId × SigId) => (w.unsubscribe p.1 a p.2).1) w
     w.retTo a (.connStart c :: fs) .unit
   | .retTrue => w.retTo a fs (.bool true)
-  | .taskResult t =>
+  | .taskResult t quiet =>
     match (w.task t).result with
-    | some (v, none) => (w.emit a "taskret" [v]).retTo a fs (.int v)
+    | some (v, none) => (if quiet then w else w.emit a "taskret" [v]).retTo a fs (.int v)
     | some (_, some e) => w.raiseTo a fs e
     | none => w.retTo a fs .unit
   | .taskStart t delay at_ prog =>                                     -- task.py payload_wrapper
@@ -313,13 +515,86 @@ def stepRet (w : World τ) (a : ActId) (f : Frame τ) (fs : List (Frame τ)) (v 
     | c :: rest => w.doCondAwait a (.scopeExitWait s rest :: fs) (w.task c).done
   | .scopeClose s todo reason volDone orig graceful => w.continueClose a fs s todo reason volDone orig graceful
   | .tryBlock _ => w.retTo a fs .unit
-  | .lockWait l body =>
-    let w := { w with locks := w.locks.modify l (fun x => { x with depth := x.depth + 1 }) }
-    w.retTo a (.seq body :: .lockBody l :: fs) .unit
+  | .lockWait l cont => w.lockAcquired a fs l cont
   | .lockBody l =>                                                     -- locks.py Lock.__aexit__
     let w := { w with locks := w.locks.modify l (fun x => { x with depth := x.depth - 1 }) }
     let w := if (w.locks.getD l default).depth == 0 then w.lockRelease l else w
-    w.retTo a fs .unit
+    w.retTo a fs v
+  | .qGetPop q =>                                                      -- streams.py:158,163-167
+    match (w.queues.getD q default).buffer with
+    | x :: rest =>
+      ({ w with queues := w.queues.modify q (fun y => { y with buffer := rest }) }).retTo a fs (.int x)
+    | [] =>
+      if (w.queues.getD q default).closed then w.raiseNew a fs .streamClosed
+      else w.raiseNew a fs (.assertion 6)
+  | .gotValue => (w.emit a "got" [valInt v]).retTo a fs .unit
+  | .qIterNext q rem body =>
+    if rem == 0 then w.retTo a fs .unit
+    else w.acquireLock a (.qIterGot q rem body :: fs) (w.queues.getD q default).mutex (.queueGet q)
+  | .qIterGot q rem body =>
+    (w.emit a "got" [valInt v]).retTo a (.seq body :: .qIterNext q (rem - 1) body :: fs) .unit
+  | .cGetWait c key =>                                                 -- streams.py Channel.__await__
+    let ch := w.chans.getD c default
+    let buf := ((ch.buffers.find? (·.1 == key)).map (·.2)).getD []
+    let w := { w with chans := w.chans.modify c (fun x => { x with buffers := x.buffers.filter (·.1 != key) }) }
+    match buf with
+    | x :: _ => w.retTo a fs (.int x)
+    | [] => if ch.closed then w.raiseNew a fs .streamClosed else w.raiseNew a fs .valueError
+  | .cIterLoop c key rem body =>                                       -- streams.py Channel.__aiter__
+    let ch := w.chans.getD c default
+    let dereg (w : World τ) : World τ :=
+      { w with chans := w.chans.modify c (fun x => { x with buffers := x.buffers.filter (·.1 != key) }) }
+    if rem == 0 then (dereg w).retTo a fs .unit
+    else
+      match ((ch.buffers.find? (·.1 == key)).map (·.2)).getD [] with
+      | x :: rest =>
+        let w := { w with chans := w.chans.modify c (fun y => { y with buffers := y.buffers.map (fun (b : Nat × List Int) => if b.1 == key then (b.1, rest) else b) }) }
+        (w.emit a "got" [x]).retTo a (.seq body :: .cIterLoop c key (rem - 1) body :: fs) .unit
+      | [] =>
+        if ch.closed then (dereg w).retTo a fs .unit
+        else w.doNotifAwait a (.cIterWait c key rem body :: fs) ch.notif
+  | .cIterWait c key rem body => w.retTo a (.cIterLoop c key rem body :: fs) .unit
+  | .borrowWait r b body =>
+    let rs := w.res.getD r default
+    let debits := (w.res.getD b default).debits
+    (w.setLevels r (vecSub rs.levels debits)).doPostpone a (.borrowRemoved r b body :: fs)
+  | .borrowRemoved r b body =>
+    let bs := w.res.getD b default
+    (w.setLevels b (vecAdd bs.levels bs.debits)).doPostpone a (.borrowInserted r b body :: fs)
+  | .borrowInserted r b body => w.retTo a (.seq body :: .borrowBody r b :: fs) .unit
+  | .borrowBody r b =>                                                 -- BorrowedResources.__aexit__, no exception
+    let bs := w.res.getD b default
+    (w.setLevels b (vecSub bs.levels bs.debits)).doPostpone a (.borrowExit1 r b none :: fs)
+  | .borrowExit1 r b orig =>
+    let rs := w.res.getD r default
+    (w.setLevels r (vecAdd rs.levels (w.res.getD b default).debits)).doPostpone a (.borrowExit2 orig :: fs)
+  | .borrowExit2 orig =>
+    match orig with
+    | some e => w.raiseTo a fs e
+    | none => w.retTo a fs .unit
+  | .resAdjust r amounts insert =>
+    let rs := w.res.getD r default
+    (w.setLevels r (if insert then vecAdd rs.levels amounts else vecSub rs.levels amounts)).doPostpone a fs
+  | .pipeWindow p ident total thr _ wStart wThr cw =>
+    -- suspend/postpone returned normally: `transferred = total`, leave the subscription
+    let (w, _) := w.plainUnsubscribe (w.pipes.getD p default).congested a cw
+    let transferred := add total (mul (sub w.time wStart) wThr)
+    if lt transferred total then w.pipeWindowStart a fs p ident total thr transferred
+    else (w.pipeFinish p ident).retTo a fs .unit
+  | .tickWait isInt period _ rem body =>
+    (w.emit a "tick" []).retTo a (.seq body :: .tickBody isInt period w.time (rem - 1) body :: fs) .unit
+  | .tickBody isInt period last rem body => w.tickNext a fs isInt period last rem body
+  | .collectAwait todo acc =>
+    let acc := match v with
+      | .int i => acc ++ [i]
+      | _ => acc
+    match todo with
+    | [] => (w.emit a "collected" acc).retTo a fs .unit
+    | n :: rest =>
+      match lookup w.taskNames n with
+      | some t => w.doCondAwait a (.taskResult t true :: .collectAwait rest acc :: fs) (w.task t).done
+      | none => w.retTo a (.collectAwait rest acc :: fs) .unit
+  | .nestedRun => w.retTo a fs .unit
   | .asyncTrigger c => (w.awakeAll c).retTo a fs .unit
   | .coroutineEnd => w.finishAct a (.ret v)
 
@@ -345,7 +620,7 @@ def stepRaise (w : World τ) (a : ActId) (f : Frame τ) (fs : List (Frame τ)) (
         ((w.unsubscribe q.1 a q.2).1, sw)) (w, false)
     if swallowed then w.retTo a (.connStart c :: fs) .unit else w.raiseTo a fs e
   | .retTrue => w.raiseTo a fs e
-  | .taskResult _ => w.raiseTo a fs e
+  | .taskResult _ _ => w.raiseTo a fs e
   | .taskStart t _ _ _ | .taskDelay t _ | .taskPayload t =>            -- task.py:137-157
     match w.exn e with
     | .genExit => ((w.childFinished t false).taskFinalize t).retTo a fs .unit
@@ -382,6 +657,36 @@ def stepRaise (w : World τ) (a : ActId) (f : Frame τ) (fs : List (Frame τ)) (
     let w := { w with locks := w.locks.modify l (fun x => { x with depth := x.depth - 1 }) }
     let w := if (w.locks.getD l default).depth == 0 then w.lockRelease l else w
     w.raiseTo a fs e
+  | .qGetPop _ | .gotValue | .qIterNext .. | .cIterWait .. => 
+    match f with
+    | .cIterWait c key _ _ =>
+      ({ w with chans := w.chans.modify c (fun x => { x with buffers := x.buffers.filter (·.1 != key) }) }).raiseTo a fs e
+    | _ => w.raiseTo a fs e
+  | .qIterGot .. =>
+    -- Queue.__aiter__: `except StreamClosed: break`
+    if w.exn e == .streamClosed then w.retTo a fs .unit else w.raiseTo a fs e
+  | .cGetWait c key | .cIterLoop c key _ _ =>
+    ({ w with chans := w.chans.modify c (fun x => { x with buffers := x.buffers.filter (·.1 != key) }) }).raiseTo a fs e
+  | .borrowWait .. | .borrowRemoved .. | .borrowInserted .. | .borrowExit1 .. | .borrowExit2 _
+  | .resAdjust .. | .tickWait .. | .tickBody .. | .collectAwait .. | .nestedRun => w.raiseTo a fs e
+  | .borrowBody r b =>                                                 -- BorrowedResources.__aexit__ with an exception
+    let bs := w.res.getD b default
+    if w.exn e == .genExit then
+      -- forcefully closed: dispatch two new activities that give the resources back
+      let (w, a1) := w.newAct [.resAdjust b bs.debits false, .coroutineEnd]
+      let w := w.scheduleNow a1 none
+      let (w, a2) := w.newAct [.resAdjust r bs.debits true, .coroutineEnd]
+      let w := w.scheduleNow a2 none
+      w.raiseTo a fs e
+    else (w.setLevels b (vecSub bs.levels bs.debits)).doPostpone a (.borrowExit1 r b (some e) :: fs)
+  | .pipeWindow p ident total thr transferred wStart wThr cw =>
+    let (w, _) := w.plainUnsubscribe (w.pipes.getD p default).congested a cw
+    if (w.sig cw).exn == e then
+      -- the congestion notification: re-plan with the new scale
+      let transferred := add transferred (mul (sub w.time wStart) wThr)
+      if lt transferred total then w.pipeWindowStart a fs p ident total thr transferred
+      else (w.pipeFinish p ident).retTo a fs .unit
+    else (w.pipeFinish p ident).raiseTo a fs e
   | .asyncTrigger _ => w.raiseTo a fs e
   | .coroutineEnd => w.finishAct a (.raise e)
 
@@ -415,10 +720,20 @@ def activate (w : World τ) (target : ActId) (signal : Option SigId) : World τ 
     let (w, e) := w.newExn .reuse
     { w with crashed := some e }
 
+/-- the innermost `run()` returns: to the caller activity of an enclosing simulation, if any -/
+def nestedReturn (w : World τ) : Option (World τ) :=
+  match w.saved with
+  | [] => none
+  | sv :: rest =>
+    let w := { w with saved := rest, time := sv.time, turn := sv.turn, pending := sv.pending, queue := sv.queue, ctl := sv.ctl }
+    match w.crashed with
+    | some e => some ({ w with crashed := none }.setMode (.raise e))
+    | none => some (w.setMode (.ret .unit))
+
 /-- `Loop._run_events`: next activation of the current time step, or the next bucket;
 `none` = `run()` returns (quiescence or an escaped exception) -/
 def kernelStep (w : World τ) : Option (World τ) :=
-  if w.crashed.isSome then none
+  if w.crashed.isSome then w.nestedReturn
   else
     match w.pending with
     | act :: rest =>
@@ -430,7 +745,7 @@ def kernelStep (w : World τ) : Option (World τ) :=
     | [] =>
       match w.queue with
       | (t, bucket) :: q => some { w with time := t, turn := 0, pending := bucket, queue := q }
-      | [] => none
+      | [] => w.nestedReturn
 
 def step (w : World τ) : Option (World τ) :=
   match w.ctl with
@@ -469,6 +784,26 @@ def initWorld (cfg : Config) (start : τ) (d : Decls τ) (roots : List (Prog τ)
     let (w, n) := w.newCond .plain
     { w with locks := w.locks.push { notif := n } }) w
   let w := d.tracked.foldl (fun (w : World τ) v => { w with tracked := w.tracked.push { value := v } }) w
+  let w := (List.range d.queues).foldl (fun (w : World τ) _ =>
+    let (w, n) := w.newCond .plain
+    let (w, m) := w.newCond .plain
+    let l := w.locks.size
+    { w with locks := w.locks.push { notif := m }, queues := w.queues.push { notif := n, mutex := l } }) w
+  let w := (List.range d.chans).foldl (fun (w : World τ) _ =>
+    let (w, n) := w.newCond .plain
+    { w with chans := w.chans.push { notif := n } }) w
+  let w := d.resources.foldl (fun (w : World τ) (r : List Int × Bool) =>
+    let rid := w.res.size
+    if r.2 then
+      -- Capacities: a borrowed share of a hidden Resources supply
+      let w := { w with res := w.res.push { levels := r.1.map (fun _ => 0) } }
+      { w with res := w.res.push { levels := r.1, parent := some rid, debits := r.1 },
+               resNames := w.resNames ++ [(w.resNames.length, rid + 1)] }
+    else
+      { w with res := w.res.push { levels := r.1 }, resNames := w.resNames ++ [(w.resNames.length, rid)] }) w
+  let w := d.pipes.foldl (fun (w : World τ) (t : Option τ) =>
+    let (w, n) := w.newCond .plain
+    { w with pipes := w.pipes.push { throughput := t, scale := TimeLike.ofInt 1, congested := n } }) w
   -- root activities are pushed into the time queue at `start` (loop.py:131-132)
   let (w, acts) := roots.foldl (fun (p : World τ × List Activation) prog =>
     let (w, a) := p.1.newAct [.seq prog, .coroutineEnd] true p.2.length
